@@ -368,7 +368,11 @@ def fixedConstPairs : List (Name × Name) := [
   (n!"consts.IPPROTO_UDP", n!"IPPROTO_UDP"),
   (n!"consts.LinkHdrLen_Ethernet", n!"ETH_HLEN"),
   (n!"consts.L4ProtoType_TCP_UDP", n!"L4ProtoType_X"),
-  (n!"control.defaultConnStateMapMaxEntries", n!"MAX_CONN_STATE_NUM")]
+  (n!"control.defaultConnStateMapMaxEntries", n!"MAX_CONN_STATE_NUM"),
+  -- conn_state_map idle limits: `tcp_conn_state_expired` (kernel, deletes on lookup) and
+  -- `cleanupConnStateMap` (control-plane janitor) judge the same `last_seen_ns` of the same entries
+  (n!"control.tcpConnStateTimeoutEstablished", n!"TCP_CONN_STATE_ESTABLISHED_TIMEOUT_NS"),
+  (n!"control.tcpConnStateTimeoutClosing", n!"TCP_CONN_STATE_CLOSING_TIMEOUT_NS")]
 
 def constPairOk (x : Name × Name) : Bool :=
   match lookupConst x.1 Gen.goConsts, lookupConst x.2 Gen.cConsts with
